@@ -1,4 +1,5 @@
 import Lemmas.Online.Concrete
+import Lemmas.Online.Rounds
 /-!
 # C04 — a failing migration never leaves the version table out of step
 
@@ -319,6 +320,114 @@ theorem shape_noOuter_same (c : Cfg) (h : PerMigRegime c) (pre : List (Stmt α))
   unfold runShape
   simp only [begin_outer_perMig c h]
 
+/-! ### several configure()/begin_transaction()/run_migrations() rounds on ONE connection -/
+
+/-- **A completed round leaves the connection outside any transaction** (per-migration regime,
+    at least one migration, entered on a connection outside a transaction): the state handed
+    to the next round is a fresh connection on the database with the round's migrations
+    applied and recorded — so the next `MigrationContext.__init__` computes
+    `_in_external_transaction = False`. -/
+theorem run_leaves_no_txn (c : Cfg) (hreg : PerMigRegime c) (pre : List (Stmt α)) (m : Mig α) (rest : List (Mig α)) (db : σ) :
+    roundOutcome ap c pre ((m :: rest).map migAtoms) (freshSt db) =
+      .ok (freshSt (stateAt ap pre (m :: rest) (m :: rest).length db)) := by
+  unfold roundOutcome
+  rw [roundCfg_fresh c hreg.1 db, ← initSt_fresh c hreg.1 db, runMigrations_eq', begin_outer_perMig c hreg,
+    runLoop_complete_perMig ap c hreg m rest _ (loopStart_auto ap c pre db) (loopStart_txn ap c hreg pre db), loopStart_working]
+  simp [exitIf, stateAt, applied]
+
+/-- ... whereas a round with NOTHING to do does leave it inside the transaction that
+    `get_current_heads()` autobegan (nobody commits it): the next context on that connection
+    would see `connection.in_transaction()` true.  (Concrete witness; the harness' rounds all
+    contain migrations.) -/
+theorem round_without_migrations_leaves_txn :
+    (roundOutcome applyAct { mode := .pysqlite, tddl := false, perMig := false, external := false }
+      ([] : List (Stmt Act)) [] (freshSt ({ objs := [], rows := [0], vt := true } : Db))).st.sa = true := by decide
+
+/-- A round entered on a connection outside a transaction that fails is exactly the
+    standalone run the other theorems are about. -/
+theorem round_failure_eq_standalone (c : Cfg) (h : c.external = false) (pre : List (Stmt α))
+    (progs : List (List (Atom α))) (db : σ) (hr : (roundOutcome ap c pre progs (freshSt db)).isRaised = true) :
+    (roundOutcome ap c pre progs (freshSt db)).st.committed = runFinal ap c pre progs db := by
+  unfold roundOutcome runFinal at *
+  rw [roundCfg_fresh c h db, ← initSt_fresh c h db] at *
+  cases hm : runMigrations ap c pre progs (beginTransaction c false (initSt c db)).2 with
+  | ok s => rw [hm] at hr; simp [Outcome.isRaised] at hr
+  | raised s => simp [Outcome.st, closeConn_exc_committed]
+
+/-- the rounds of one env.py run: settings, housekeeping statements and plan of each -/
+abbrev Round (α : Type) := Cfg × List (Stmt α) × List (Mig α)
+
+/-- the connection state after the rounds ran one after another on the same connection -/
+def roundsSt : List (Round α) → St σ → Option (St σ)
+  | [], st => some st
+  | (c, pre, plan) :: r, st =>
+    match roundOutcome ap c pre (plan.map migAtoms) st with
+    | .ok s => roundsSt r s
+    | .raised _ => none
+
+/-- the database after the rounds, each taken as a standalone complete run -/
+def roundsDb : List (Round α) → σ → σ
+  | [], db => db
+  | (_, pre, plan) :: r, db => roundsDb r (stateAt ap pre plan plan.length db)
+
+/-- **Rounds are independent**: if every round is in the per-migration regime and has at least
+    one migration, then running them one after another on ONE connection is the same as
+    running each as a standalone command: every round is entered on a fresh connection over
+    the database its predecessors left (so all theorems above apply to it verbatim, see
+    `round_failure_eq_standalone`), and the whole sequence ends outside a transaction. -/
+theorem rounds_independent (rounds : List (Round α)) (h : ∀ r ∈ rounds, PerMigRegime r.1 ∧ r.2.2 ≠ []) (db : σ) :
+    roundsSt ap rounds (freshSt db) = some (freshSt (roundsDb ap rounds db)) := by
+  induction rounds generalizing db with
+  | nil => rfl
+  | cons r rest ih =>
+    obtain ⟨c, pre, plan⟩ := r
+    have hr := h (c, pre, plan) List.mem_cons_self
+    cases plan with
+    | nil => exact absurd rfl hr.2
+    | cons m ms =>
+      simp only [roundsSt, roundsDb]
+      rw [run_leaves_no_txn ap c hr.1 pre m ms db]
+      exact ih (fun r' hr' => h r' (List.mem_cons_of_mem _ hr')) _
+
+/-! ### statements whose effect is the identity (a migration that reads the current heads) -/
+
+/-- `plan'` is `plan` with identity statements inserted anywhere in the bodies -/
+def PlanInsertId : List (Mig α) → List (Mig α) → Prop
+  | [], [] => True
+  | m :: r, m' :: r' => m'.vstmts = m.vstmts ∧ InsertId ap (bodyActs m.segs) (bodyActs m'.segs) ∧ PlanInsertId r r'
+  | _, _ => False
+
+theorem planActs_take_insertId : ∀ (plan plan' : List (Mig α)) (j : Nat), PlanInsertId ap plan plan' →
+    InsertId ap (planActs (plan.take j)) (planActs (plan'.take j))
+  | [], [], j, _ => by simp [planActs]; exact .nil
+  | m :: r, m' :: r', 0, _ => by simp [planActs]; exact .nil
+  | m :: r, m' :: r', j + 1, h => by
+    obtain ⟨hv, hb, hr⟩ := h
+    simp only [List.take_succ_cons, planActs, migActs]
+    refine insertId_append ap (insertId_append ap hb ?_) (planActs_take_insertId r r' j hr)
+    rw [hv]; exact insertId_refl ap _
+  | [], _ :: _, _, h => by cases h
+  | _ :: _, [], _, h => by cases h
+
+/-- **Identity statements are invisible at every migration boundary**: inserting statements
+    whose effect is the identity (the harness' "read the current heads" statement) anywhere
+    in the bodies changes no `stateAt j`, hence nothing the specification compares with. -/
+theorem read_noop (pre : List (Stmt α)) (plan plan' : List (Mig α)) (h : PlanInsertId ap plan plan') (j : Nat) (db : σ) :
+    stateAt ap pre plan' j db = stateAt ap pre plan j db := by
+  unfold stateAt applied
+  exact applyAll_insertId ap (planActs_take_insertId ap plan plan' j h) _
+
+/-- ... and therefore, with transactional DDL and per-migration transactions, the database
+    after a failure is the same with and without the inserted statements, wherever they are
+    inserted and wherever in migration `k` the failure strikes (positions `pos`, `pos'`). -/
+theorem read_noop_per_migration (c : Cfg) (pre : List (Stmt α)) (plan plan' : List (Mig α)) (k pos pos' : Nat)
+    (m m' : Mig α) (db : σ) (h : PlanInsertId ap plan plan') (hmode : c.mode = .transactional) (hreg : PerMigRegime c)
+    (hk : plan[k]? = some m) (hk' : plan'[k]? = some m')
+    (hna : noAuto ((migAtoms m).take pos) = true) (hna' : noAuto ((migAtoms m').take pos') = true) :
+    runFinal ap c pre (oracle kd plan' k pos') db = runFinal ap c pre (oracle kd plan k pos) db := by
+  rw [per_migration ap kd c pre plan' k pos' m' db hmode hreg hk' hna',
+    per_migration ap kd c pre plan k pos m db hmode hreg hk hna, read_noop ap pre plan plan' h]
+
 /-! ### several `configure()` calls in one env.py run: which settings does the k-th context get? -/
 
 /-- `transaction_per_migration` of a context is the argument of *its own* `configure()` call,
@@ -379,6 +488,22 @@ example : (check (cfg .pysqlite false false) true exParents exPre exPlan 1 1 exD
 -- ... and, with real transactional DDL, one in which the failed migration left a trace
 example : (check (cfg .transactional true true) true exParents exPre exPlan 1 1 exDb
     { objs := [0, 1, 2, 4], rows := [0], vt := true }).holds = false := by decide
+
+-- rounds on one connection: two per-migration rounds end outside a transaction, on the database both left
+example : (roundsSt applyAct [(cfg .pysqlite false false, exPre, exPlan), (cfg .transactional true true, [], exPlan)]
+      (freshSt exDb)).map (fun s => (s.committed, s.sa, s.txn)) =
+    some (({ objs := [0, 1, 2, 3, 4], rows := [1], vt := true } : Db), false, false) := by decide
+example : PerMigRegime (cfg .pysqlite false false) ∧ PerMigRegime (cfg .transactional true true) := by
+  constructor <;> simp [PerMigRegime, cfg]
+-- a plan with "read the current heads" statements inserted before / between / after the statements of `b`
+def exPlanRead : List (Mig Act) :=
+  [ exPlan[0],
+    { rev := 1, segs := [.plain [⟨.ddl, .read⟩, ⟨.ddl, .add 4⟩, ⟨.ddl, .read⟩, ⟨.dml, .add 3⟩, ⟨.ddl, .read⟩]], vstmts := [.vupd 0 1] } ]
+example : PlanInsertId applyAct exPlan exPlanRead :=
+  ⟨rfl, insertId_refl applyAct _, rfl,
+    .skip _ (fun _ => rfl) (.cons _ (.skip _ (fun _ => rfl) (.cons _ (.skip _ (fun _ => rfl) .nil)))), trivial⟩
+example : runFinal applyAct (cfg .transactional true true) exPre (oracle .exception exPlanRead 1 3) exDb =
+    runFinal applyAct (cfg .transactional true true) exPre (oracle .exception exPlan 1 1) exDb := by decide
 
 /-- Why `single_txn` excludes autocommit blocks: `autocommit_block` commits the enclosing
     transaction *by design* (documented warning in its docstring).  Here migration `b`
